@@ -73,7 +73,9 @@ class Prop:
 
     def sample(self, c):
         args = c["args"]
-        txt = unhex(args[0]) if args and re.fullmatch(r"[0-9a-f]*", str(args[0])) else str(args[0]) if args else ""
+        if c["op"] in ("timing", "tag", "btag") and len(args) > 1 and re.fullmatch(r"[0-9a-f]*", str(args[1])[:1200]):
+            return {"op": c["op"] + " " + str(args[0]), "input": unhex(str(args[1])[:1200])[:600]}
+        txt = unhex(str(args[0])[:2400]) if args and re.fullmatch(r"[0-9a-f]*", str(args[0])[:2400]) else str(args[0]) if args else ""
         return {"op": c["op"], "input": txt[:600]}
 
 
@@ -93,7 +95,10 @@ class Run:
         self.model = vlib.run_model(mcases) if (self.model_ok and mcases) else {}
         self.t_model += time.time() - t
         t = time.time()
-        self.impl = vlib.run_impl(cases)
+        self.impl = vlib.run_impl([c for c in cases if not c["meta"].get("solo")])
+        for c in cases:
+            if c["meta"].get("solo"):
+                self.impl[c["id"]] = vlib.run_solo(vlib.HARNESS_BIN_DEBUG if c["meta"].get("debug") else vlib.HARNESS_BIN, c, timeout=c["meta"].get("timeout", 120))
         self.t_impl += time.time() - t
 
     def execute(self):
@@ -135,7 +140,8 @@ class Run:
 
     def record(self, c, m, i, j, kind):
         return {"property": self.pid, "kind": kind, "seed": self.seed, "tier": self.tier,
-                "case": {"id": c["id"], "op": c["op"], "args": c["args"]},
+                "case": {"id": c["id"], "op": c["op"], "args": c["args"], "model": c.get("model", True)},
+                "meta": {k: v for k, v in c.get("meta", {}).items() if k in ("solo", "debug", "timeout", "what", "stream")},
                 "input_text": self.prop.sample(c)["input"], "model": (m or "")[:3000], "impl": (i or "")[:3000],
                 "detail": j.get("detail", ""), "known_class": j.get("known"),
                 "how_to_replay": "./check %s --replay <this file>" % self.pid}
@@ -646,7 +652,7 @@ class C08(Prop):
         lines = ["#EXTM3U", "#EXT-X-TARGETDURATION:10"]
         for k, (uri, r) in enumerate(chain):
             if k == 0 and maprange is not None:
-                lines.append('#EXT-X-MAP:URI="init.mp4",BYTERANGE="%d@%d"' % maprange)
+                lines.append('#EXT-X-MAP:URI="init.mp4",BYTERANGE="%s"' % ("%d@%d" % maprange if maprange[1] is not None else "%d" % maprange[0]))
             if r is not None:
                 lines.append("#EXT-X-BYTERANGE:%d%s" % (r[0], "" if r[1] is None else "@%d" % r[1]))
             lines.append("#EXTINF:5,")
@@ -679,7 +685,7 @@ class C08(Prop):
                 else:
                     r = (g.pick(vals + [g.small(10 ** 6)]), None)
                 chain.append((uri, r))
-            mr = (g.small(1000), g.small(10 ** 6)) if g.chance(0.3) else None
+            mr = (g.small(1000), g.pick([g.small(10 ** 6), 0, None])) if g.chance(0.3) else None
             out.append(self._case("r", k, chain, mr))
         return out
 
@@ -711,7 +717,8 @@ class C08(Prop):
         map_ok = True
         if mr is not None:
             s0 = media_segs(first_dump(node))[0]
-            map_ok = unparse(field(field(s0, "map")[1], "range")) == "(range (r %d %d))" % (mr[1], mr[1] + mr[0])
+            # EXT-X-MAP BYTERANGE is reported as written: an omitted offset stays omitted
+            map_ok = unparse(field(field(s0, "map")[1], "range")) == ("(range (r %d %d))" % (mr[1], mr[1] + mr[0]) if mr[1] is not None else "(range (r none %d))" % mr[0])
         ok = got == want and explicit and re_ok and map_ok
         return {"agree": agree, "ok": ok, "nontrivial": any(e is not None for e in exp),
                 "detail": "" if ok else "ranges want=%s got=%s explicit=%s reparse=%s map=%s" % (want, got, explicit, re_ok, map_ok), "stats": {"accept": 1}}
@@ -747,6 +754,25 @@ class C09(Prop):
                 durs.append(x * 10 ** 9 + g.pick([0, 1, 499999999, 500000000, 500000001, 999999999, g.small(10 ** 9)]))
             out.append(self._case(n, t, al, durs, g)); n += 1
             out.append(self._bcase(n, t, al, durs)); n += 1
+        # the rule inside an otherwise valid playlist of the full domain (flags, keys, maps, ranges, date ranges ...): one segment
+        # is put at the boundary; accepted iff its rounded duration does not exceed the target (both paths)
+        for k in range(count_tier(tier, 500, 10000)):
+            gen.plain_style(g)
+            a = gen.gen_media(g, nseg=g.r.randint(1, 6))
+            hist = []
+            for sg in a["segs"]:
+                if sg["map"] is not None and gen.keys_in_effect(hist + sg["keys_before"][: sg["map"]["pos"]]) not in ([], ):
+                    sg["map"] = None
+                hist = gen.keys_in_effect(hist + sg["keys_before"])
+            if a["d17"]:
+                continue
+            t = a["target"]
+            over = g.chance(0.5)
+            sg = g.pick(a["segs"])
+            sg["dur"] = g.pick(["%d.5" % t, "%d" % (t + 1), "%d.500000001" % t, "%d.999999999" % t]) if over else \
+                g.pick(["%d.499999999" % t, "%d" % t, "%d.000000001" % t, "%d.5" % max(t - 1, 0)])
+            out.append(mk("c", n, "media", hx(gen.render_media(a, None)), exp=not over, exact=True, path="text_in_context")); n += 1
+            out.append(mk("d", n, "bmedia", hx(builder_script(a, g)), exp=not over, exact=True, path="builder_in_context")); n += 1
         return out
 
     @staticmethod
@@ -1177,6 +1203,7 @@ def slide(a, k):
     b["segs"] = segs
     b["mseq"] = (a["mseq"] or 0) + k
     b["unknown"] = []
+    b["late"] = {}
     return b
 
 
@@ -1231,6 +1258,7 @@ class C17(Prop):
 @register
 class C05(Prop):
     pid = "C05"
+    needs_debug_harness = True
     rule = ("near-valid inputs: generated media/master playlists with one to three mutations (a token replaced by -1, 0, 2^64-1, 2^64, 2^128, nan, "
             "inf, 1e400, empty, lone quote, multi-byte chars; line truncated at any char; lines duplicated/swapped/deleted; text truncated), "
             "structurally valid playlists with numbers at the edges of the integer and duration types (boundary stream), "
@@ -1293,6 +1321,35 @@ class C05(Prop):
                 out.append(mk("c", n, "media_excess", hx(text), g.pick([0, 1, 10 ** 9, (2 ** 64 - 1) * 10 ** 9 + 999999999]), stream="boundary"))
             else:
                 out.append(mk("c", n, "media", hx(text), stream="boundary"))
+            n += 1
+        # stress stream: large inputs of simple shape, each in its own process of the UNOPTIMISED harness build (recursion is not
+        # turned into a loop there): the entry point has to return -- an abort (stack overflow) or a hang is a violation
+        N = count_tier(tier, 300000, 1500000)
+        hdr = "#EXTM3U\n#EXT-X-TARGETDURATION:10\n"
+        stress = [
+            ("media", "blank lines", hdr + "\n" * N + "#EXTINF:1,\ns.ts\n"),
+            ("master", "blank lines", "#EXTM3U\n" + "\n" * N + "#EXT-X-STREAM-INF:BANDWIDTH=1\nv.m3u8\n"),
+            ("media", "white-space lines", hdr + "  \t\r\n" * (N // 3) + "#EXTINF:1,\ns.ts\n"),
+            ("media", "comment lines", hdr + "# c\n" * (N // 3) + "#EXTINF:1,\ns.ts\n"),
+            ("master", "comment lines", "#EXTM3U\n" + "#c\n" * (N // 3)),
+            ("media", "unknown tags", hdr + "#EXT-X-FOO:1\n" * (N // 10)),
+            ("master", "unknown tags", "#EXTM3U\n" + "#EXT-X-FOO:1\n" * (N // 10)),
+            ("media", "segments", hdr + "#EXTINF:1,\ns.ts\n" * (N // 30)),
+            ("media", "segments with byte ranges and one key", hdr + '#EXT-X-KEY:METHOD=AES-128,URI="k"\n' + "#EXT-X-BYTERANGE:10\n#EXTINF:1,\ns.ts\n".replace("10\n", "10@0\n", 1) * 1 + "#EXT-X-BYTERANGE:10\n#EXTINF:1,\ns.ts\n" * (N // 60)),
+            ("master", "variants", "#EXTM3U\n" + "#EXT-X-STREAM-INF:BANDWIDTH=1\nv.m3u8\n" * (N // 60)),
+            ("media", "one line of quotes", hdr + "#EXT-X-KEY:" + '"' * N + "\n"),
+            ("media", "one line of commas", hdr + "#EXT-X-KEY:" + "," * N + "\n"),
+            ("media", "one line of equals signs", hdr + "#EXT-X-DATERANGE:" + "=" * N + "\n"),
+            ("media", "one attribute list with many attributes", hdr + '#EXT-X-DATERANGE:ID="d",' + ",".join("X-A%d=%d" % (j, j) for j in range(N // 30)) + "\n#EXTINF:1,\ns.ts\n"),
+            ("media", "one long URI line", hdr + "#EXTINF:1,\n" + "a" * N + "\n"),
+            ("media", "carriage returns", hdr + "\r" * N + "\n#EXTINF:1,\ns.ts\n"),
+            ("media", "no line breaks", "#EXTM3U" + " " * N),
+            ("media", "long EXTINF title", hdr + "#EXTINF:1," + "t" * N + "\ns.ts\n"),
+            ("media", "long number", hdr + "#EXTINF:" + "9" * (N // 10) + ",\ns.ts\n"),
+            ("media", "long fraction", hdr + "#EXTINF:0." + "9" * (N // 10) + ",\ns.ts\n"),
+        ]
+        for kind, what, text in stress:
+            out.append(mk("s", n, "timing", kind, hx(text), stream="stress", model=False, solo=True, debug=True, timeout=300, what=what))
             n += 1
         alphabet = ['"', ",", "=", "@", "/", "x", "0x", "-", "+", ".", "e", "1", "9", "0", "nan", "inf", " ", "é", "\U0001f600", "YES", "NONE",
                     "18446744073709551615", "METHOD", "URI", "#EXT-X-KEY:", "#EXTINF:", "\n", "\r\n", "#EXTM3U", "#EXT-X-TARGETDURATION:", "#EXT-X-STREAM-INF:", "BANDWIDTH=1"]
@@ -1381,7 +1438,8 @@ class C05(Prop):
         agree = None
         if m is not None:
             agree = (res_kind(m) == "panic") == (rk == "panic")
-        return {"agree": agree, "ok": ok, "nontrivial": rk == "err" or rk == "ok", "detail": "" if ok else "entry point %s did not return normally: %s" % (c["op"], rk),
+        return {"agree": agree, "ok": ok, "nontrivial": rk == "err" or rk == "ok",
+                "detail": "" if ok else "entry point %s did not return normally: %s%s" % (c["op"], (i or "")[:80], " [stress input: %s]" % c["meta"]["what"] if c["meta"].get("what") else ""),
                 "stats": {c["meta"]["stream"]: 1, "result_" + rk: 1}}
 
 
@@ -1453,18 +1511,31 @@ class C13(Prop):
             if g.chance(0.1):
                 media.append(("CLOSED-CAPTIONS", "NONE"))
             variants = []
-            for _ in range(g.r.randint(0, 2)):
+            for _ in range(g.pick([0, 1, 1, 2, 2, 3, 4])):
                 variants.append({"kind": "s", "audio": g.pick([None, "g1", "g2"]), "video": g.pick([None, None, "g1", "g2"]),
                                  "subs": g.pick([None, "g1", "g2"]), "cc": g.pick([None, "g1", "g2", "NONE"])})
             if g.chance(0.4):
                 variants.append({"kind": "iframe", "video": g.pick([None, "g1", "g2"])})
-            sdata = [(g.pick(["a", "b"]), g.pick([None, "en"])) for _ in range(g.r.randint(0, 2))]
+            sdata = [(g.pick(["a", "b"]), g.pick([None, "en", "de"])) for _ in range(g.pick([0, 1, 2, 2, 3, 4, 5]))]
             text = master_text(media, variants, sdata, g if g.chance(0.7) else None)
             exp = master_consistent(media, variants, sdata)
             d19 = ("CLOSED-CAPTIONS", "NONE") in media and any(v["kind"] == "s" and v["cc"] == "NONE" for v in variants)
             out.append(mk("m", n, "master", hx(text), exp=exp, kind="accept"))
             out.append(mk("l", n, "assoc", hx(text), exp=exp, kind="lookup", d19=d19))
             n += 1
+        # exhaustive: every sequence of up to 4 (thorough: 5) session-data tags over 2 ids x {no language, en, de}, in source order
+        pairs = [(d, l) for d in ("a", "b") for l in (None, "en", "de")]
+        for L in range(1, count_tier(tier, 4, 5) + 1):
+            for seq in itertools.product(pairs, repeat=L):
+                out.append(mk("m", n, "master", hx(master_text([], [], list(seq), None)), exp=len(set(seq)) == len(seq), kind="accept"))
+                n += 1
+        # exhaustive: CLOSED-CAPTIONS of up to 4 variants over {absent, g1, NONE} with the group g1 defined
+        for L in range(1, 5):
+            for seq in itertools.product([None, "g1", "NONE"], repeat=L):
+                variants = [{"kind": "s", "audio": None, "video": None, "subs": None, "cc": c} for c in seq]
+                media = [("CLOSED-CAPTIONS", "g1")]
+                out.append(mk("m", n, "master", hx(master_text(media, variants, [], None)), exp=master_consistent(media, variants, []), kind="accept"))
+                n += 1
         return out
 
     def judge(self, run, c, m, i):
@@ -1512,6 +1583,14 @@ class C13(Prop):
 
 
 # ------------------------------------------------------------------ C14
+# IV attribute: "0x" / "0X" followed by exactly 32 hexadecimal digits (RFC 8216 4.2 hexadecimal-sequence, 128 bit)
+IV_POOL = [("0x" + "0" * 32, True), ("0X" + "f" * 32, True), ("0x" + "AbCdEf01" * 4, True), ("0x" + "0" * 31 + "1", True),
+           ("0x+" + "0" * 31, False), ("0x-" + "0" * 31, False), ("0x " + "0" * 31, False), ("0x" + "0" * 31 + " ", False), ("0x" + "0" * 33, False),
+           ("0x" + "0" * 31, False), ("0x" + "0" * 30 + "0x", False), ("0x" + "_" + "0" * 31, False), ("0x" + "0" * 16 + "+" + "0" * 15, False),
+           ("+0x" + "0" * 32, False), ("0" * 34, False), ("x0" + "0" * 32, False), ("0x" + "g" + "0" * 31, False), ("0x" + "\u0660" * 32, False),
+           ("0x", False), ("", False), ("0x" + "0" * 64, False), ("0x" + "f" * 30 + "+f", False), ("0X+" + "f" * 31, False)]
+
+
 def attr_line(prefix, attrs):
     return prefix + ",".join("%s=%s" % kv for kv in attrs)
 
@@ -1654,7 +1733,8 @@ class C14(Prop):
             if nm == "URI":
                 return g.pick([('"k"', True), ('"k"', True), ('""', "empty"), ('" "', "empty")])
             if nm == "IV":
-                return g.pick([("0x" + "ab" * 16, True), ("0X" + "AB" * 16, True), ("0x" + "ab" * 15, False), ("ab" * 16, False), ("0x" + "zz" * 16, False)])
+                return g.pick([("0x" + "ab" * 16, True), ("0X" + "AB" * 16, True), ("0x" + "ab" * 15, False), ("ab" * 16, False), ("0x" + "zz" * 16, False)]
+                              + ([g.pick(IV_POOL)] if g.chance(0.5) else []))
             if nm == "KEYFORMAT":
                 return ('"identity"', True)
             if nm == "KEYFORMATVERSIONS":
@@ -1676,6 +1756,20 @@ class C14(Prop):
                     n += 1
         out.append(mk("t", n, "tag", "ExtXKey", hx("#EXT-X-KEY:METHOD=NONE"), exp=True, tag="key", path="text")); n += 1
         out.append(mk("t", n, "tag", "ExtXSessionKey", hx("#EXT-X-SESSION-KEY:METHOD=NONE"), exp=False, tag="key", path="text")); n += 1
+        for ivt, ivok in IV_POOL:
+            out.append(mk("t", n, "tag", "InitializationVector", hx(ivt), exp=ivok, tag="iv", path="text")); n += 1
+            out.append(mk("t", n, "tag", "ExtXKey", hx('#EXT-X-KEY:METHOD=AES-128,URI="k",IV=' + ivt), exp=ivok, tag="key", path="text")); n += 1
+        # enumerated values: every value of the RFC's set is accepted, near misses are rejected
+        for ty, good, bad in (("EncryptionMethod", ["AES-128", "SAMPLE-AES"], ["aes-128", "AES-256", "AES128", "NONE ", "", "SAMPLE-AES-CTR", " AES-128"]),
+                              ("MediaType", gen.MTYPES, ["audio", "CLOSED_CAPTIONS", "CLOSEDCAPTIONS", "", "TEXT", "AUDIO "]),
+                              ("HdcpLevel", ["TYPE-0", "NONE"], ["TYPE-1", "type-0", "TYPE0", "", "NONE,"]),
+                              ("InStreamId", gen.INSTREAM, ["CC0", "CC5", "SERVICE0", "SERVICE64", "cc1", "SERVICE", "CC", "SERVICE01", "CC1 "]),
+                              ("PlaylistType", ["#EXT-X-PLAYLIST-TYPE:EVENT", "#EXT-X-PLAYLIST-TYPE:VOD"], ["#EXT-X-PLAYLIST-TYPE:LIVE", "#EXT-X-PLAYLIST-TYPE:vod", "#EXT-X-PLAYLIST-TYPE:", "#EXT-X-PLAYLIST-TYPE:VOD,EVENT"]),
+                              ("KeyFormatVersions", ['"1"', '"1/2/3/4/5/6/7/8/9"', '"255"', '"0"'], ['"1/2/3/4/5/6/7/8/9/10"', '"256"', '"-1"', '"1//2"', '"/"', '"a"', '"1/"'])):
+            for t_ in good:
+                out.append(mk("t", n, "tag", ty, hx(t_), exp=True, tag="enum", path="text")); n += 1
+            for t_ in bad:
+                out.append(mk("t", n, "tag", ty, hx(t_), exp=False, tag="enum", path="text")); n += 1
         out.append(mk("b", n, "btag", "DecryptionKey", hx("method AES-128\nuri "), exp=False, tag="key", path="builder", model=False, d13=True)); n += 1
         out.append(mk("b", n, "btag", "DecryptionKey", hx("method AES-128"), exp=False, tag="key", path="builder", model=False)); n += 1
         out.append(mk("b", n, "btag", "DecryptionKey", hx("uri k"), exp=False, tag="key", path="builder", model=False)); n += 1
@@ -1752,50 +1846,79 @@ class C18(Prop):
             out.append(mk("t", n, "tag", ty, hx(text), ty=ty, **meta))
             n += 1
         ints = [0, 1, 9, 10, 255, 256, 2 ** 32, 2 ** 63, 2 ** 64 - 1]
+        P, S_, O_ = gen.P, gen.S, gen.O
         for a in ints + [g.u64() for _ in range(count_tier(tier, 30, 400))]:
-            add("ByteRange", "%d" % a)
+            add("ByteRange", "%d" % a, exp="(r none %d)" % a)
             for b in ints[:6] + [g.small(10 ** 9)]:
                 if a + b < 2 ** 64:
-                    add("ByteRange", "%d@%d" % (a, b))
-                    add("ExtXByteRange", "#EXT-X-BYTERANGE:%d@%d" % (a, b))
-            add("Channels", "%d" % a)
-            add("Channels", "%d/JOC" % a)
-            add("Resolution", "%dx%d" % (a, g.pick(ints)))
-            add("StreamData", "BANDWIDTH=%d,AVERAGE-BANDWIDTH=%d" % (a, g.pick(ints)))
+                    add("ByteRange", "%d@%d" % (a, b), exp="(r %d %d)" % (b, a + b))
+                    add("ExtXByteRange", "#EXT-X-BYTERANGE:%d@%d" % (a, b), exp="(r %d %d)" % (b, a + b))
+            add("ExtXByteRange", "#EXT-X-BYTERANGE:%d" % a, exp="(r none %d)" % a)
+            add("Channels", "%d" % a, exp="(ch %d 0)" % a)
+            add("Channels", "%d/JOC" % a, exp="(ch %d 1)" % a)
+            h = g.pick(ints)
+            add("Resolution", "%dx%d" % (a, h), exp="(x %d %d)" % (a, h))
+            avg = g.pick(ints)
+            add("StreamData", "BANDWIDTH=%d,AVERAGE-BANDWIDTH=%d" % (a, avg), exp="(sd (bw %d) (avg %d) (codecs none) (res none) (hdcp none) (video none))" % (a, avg))
         for v in range(1, 8):
-            add("ProtocolVersion", str(v))
-            add("ExtXVersion", "#EXT-X-VERSION:%d" % v)
+            add("ProtocolVersion", str(v), exp="(pv %d)" % v)
+            add("ExtXVersion", "#EXT-X-VERSION:%d" % v, exp="(pv %d)" % v)
         for s in ["EVENT", "VOD"]:
-            add("PlaylistType", "#EXT-X-PLAYLIST-TYPE:" + s)
+            add("PlaylistType", "#EXT-X-PLAYLIST-TYPE:" + s, exp=s.lower())
         for s in gen.MTYPES:
-            add("MediaType", s)
+            add("MediaType", s, exp=gen.MT_ATOM[s])
         for s in ["TYPE-0", "NONE"]:
-            add("HdcpLevel", s)
+            add("HdcpLevel", s, exp="type0" if s == "TYPE-0" else "hnone")
         for s in ["AES-128", "SAMPLE-AES"]:
-            add("EncryptionMethod", s)
+            add("EncryptionMethod", s, exp="aes128" if s == "AES-128" else "sampleaes")
         for s in gen.INSTREAM:
-            add("InStreamId", s)
-        for s in ["NONE", '"cc1"', '"grp, x=1"', '"é"']:
-            add("ClosedCaptions", s)
+            add("InStreamId", s, exp=s)
+        for s in ["NONE", '"cc1"', '"grp, x=1"', '"\u00e9"', '"NONE"']:
+            add("ClosedCaptions", s, exp="ccnone" if s == "NONE" else P("ccgroup", S_(s[1:-1])))
         for k in range(count_tier(tier, 60, 600)):
-            add("InitializationVector", "0x" + g.hexbytes(16).hex())
-            add("InitializationVector", "0X" + g.hexbytes(16).hex().upper())
-            add("Codecs", ",".join(g.pick(["avc1.4d401e", "mp4a.40.2", "ec-3", "x y", "é"]) for _ in range(g.r.randint(1, 4))))
-            add("KeyFormatVersions", '"%s"' % "/".join(str(g.pick([1, 2, 3, 9, 255])) for _ in range(g.r.randint(2, 9))))
-            add("KeyFormat", '"%s"' % g.pick(["identity", "com.apple.streamingkeydelivery", "com.microsoft.playready", "urn:uuid:edef8ba9-79d6-4ace-a3c8-27dcd51d21ed", "com.example", "é,="]))
-            add("Value", g.pick(['"%s"' % g.qstring(), "0x" + g.hexbytes(g.r.randint(0, 6)).hex().upper(), g.f32_text()]))
-            add("ExtInf", "#EXTINF:%s,%s" % (g.duration_text(10 ** 6), g.pick(["", "title", "a,b"])))
-            add("ExtXKey", gen.key_line(gen.gen_key(g)))
-            add("ExtXSessionKey", gen.key_line(gen.gen_key(g)).replace("#EXT-X-KEY:", "#EXT-X-SESSION-KEY:"))
-            add("ExtXDateRange", gen.daterange_line(gen.gen_daterange(g), None))
-            add("ExtXMedia", gen.xmedia_line(gen.gen_xmedia(g), None))
+            iv = g.iv()
+            add("InitializationVector", "0x" + iv.hex(), exp="(aes %d)" % int.from_bytes(iv, "big"))
+            iv = g.iv()
+            add("InitializationVector", "0X" + iv.hex().upper(), exp="(aes %d)" % int.from_bytes(iv, "big"))
+            cod = [g.pick(["avc1.4d401e", "mp4a.40.2", "ec-3", "x y", "\u00e9"]) for _ in range(g.r.randint(1, 4))]
+            add("Codecs", ",".join(cod), exp=P("c", *[S_(x) for x in cod]))
+            vers = [g.pick([1, 2, 3, 9, 255, 0]) for _ in range(g.r.randint(1, 9))]
+            if g.chance(0.15):
+                vers = [0] * g.r.randint(1, 9)
+            add("KeyFormatVersions", '"%s"' % "/".join(str(v) for v in vers), exp=P("v", *[str(v) for v in vers]))
+            kf = g.pick(["identity", "com.apple.streamingkeydelivery", "com.microsoft.playready", "urn:uuid:edef8ba9-79d6-4ace-a3c8-27dcd51d21ed", "com.example", "\u00e9,="])
+            add("KeyFormat", '"%s"' % kf, exp=gen.KF_ATOM.get(kf) or P("other", S_(kf)))
+            kind = g.r.randrange(3)
+            if kind == 0:
+                qs = g.qstring()
+                add("Value", '"%s"' % qs, exp=P("vs", S_(qs)))
+            elif kind == 1:
+                hb = g.hexbytes(g.r.randint(0, 6))
+                add("Value", "0x" + hb.hex().upper(), exp=P("vh", *[str(b) for b in hb]))
+            else:
+                ft = g.f32_text()
+                add("Value", ft, exp=P("vf", str(gen.f32_bits(ft))))
+            dt, title = g.duration_text(10 ** 6), g.pick(["", "title", "a,b"])
+            add("ExtInf", "#EXTINF:%s,%s" % (dt, title), exp="(inf %d %s)" % (gen.dur_ns(dt), S_(title) if title else "none"))
+            kk = gen.gen_key(g)
+            add("ExtXKey", gen.key_line(kk), exp=gen.spec_key(kk))
+            kk = gen.gen_key(g)
+            add("ExtXSessionKey", gen.key_line(kk).replace("#EXT-X-KEY:", "#EXT-X-SESSION-KEY:"), exp=gen.spec_key(kk))
+            dr = gen.gen_daterange(g)
+            add("ExtXDateRange", gen.daterange_line(dr, None), exp=gen.spec_daterange(dr))
+            xm = gen.gen_xmedia(g)
+            add("ExtXMedia", gen.xmedia_line(xm, None), exp=gen.spec_xmedia(xm))
             mm = gen.gen_master(g)
-            for v in mm["variants"]:
-                add("VariantStream", "\n".join(gen.variant_lines(v, None)))
-            for d in mm["sdata"]:
-                add("ExtXSessionData", gen.sdata_line(d, None))
-            add("ExtXStart", "#EXT-X-START:TIME-OFFSET=%s%s" % (g.f32_text(), g.pick(["", ",PRECISE=YES"])))
-            add("ExtXMap", gen.map_line({"uri": g.uri(), "range": (g.small(10 ** 6), g.small(10 ** 6)) if g.chance(0.5) else None}, None))
+            mspec = parse_sexp(gen.spec_master(mm))[0]
+            for v, vs in zip(mm["variants"], field(mspec, "variants")[1:]):
+                add("VariantStream", "\n".join(gen.variant_lines(v, None)), exp=unparse(vs))
+            for d, ds in zip(mm["sdata"], field(mspec, "sdata")[1:]):
+                add("ExtXSessionData", gen.sdata_line(d, None), exp=unparse(ds))
+            st, pr = g.f32_text(), g.chance(0.5)
+            add("ExtXStart", "#EXT-X-START:TIME-OFFSET=%s%s" % (st, ",PRECISE=YES" if pr else ""), exp="(start %d %d)" % (gen.f32_bits(st), 1 if pr else 0))
+            mp = {"uri": g.uri(), "range": (g.small(10 ** 6), g.pick([g.small(10 ** 6), 0, None])) if g.chance(0.6) else None}
+            mr = "none" if mp["range"] is None else ("(r none %d)" % mp["range"][0] if mp["range"][1] is None else "(r %d %d)" % (mp["range"][1], mp["range"][1] + mp["range"][0]))
+            add("ExtXMap", gen.map_line(mp, None), exp="(map (uri %s) (range %s) (keys) (dlen 0) (dfirst none))" % (S_(mp["uri"]), mr))
         add("ExtXKey", "#EXT-X-KEY:METHOD=NONE")
         # float types: accept exactly the finite numbers
         specials = ["0", "-0", "+0", "1", "-1", "1.5", "3.4028235e38", "3.4028236e38", "-3.4028235e38", "1e39", "-1e39", "1e-46", "1.4e-45", "1e-50", "inf", "-inf",
@@ -1857,6 +1980,10 @@ class C18(Prop):
         t = parse_sexp(i)[1]
         re_ = field(t, "re")
         ok = re_ is not None and re_[1] == "ok" and unparse(re_[2]) == unparse(t[1])
+        exp = c["meta"].get("exp")
+        if ok and exp is not None and unparse(t[1]) != exp:
+            return {"agree": agree, "ok": False, "nontrivial": True, "stats": {c["meta"]["ty"]: 1},
+                    "detail": "the text written for the value %s parses to %s: not an equal value" % (exp[:300], unparse(t[1])[:300])}
         return {"agree": agree, "ok": ok, "nontrivial": True, "detail": "" if ok else "parse(print v) differs from v: %s" % (i[:600]), "stats": {c["meta"]["ty"]: 1}}
 
 
